@@ -13,7 +13,12 @@ import (
 
 // Bridge converts between model values (V) and the Go values of the generated bindings, driven
 // by the schema (reflection alone cannot tell a union struct from a record struct).
-type Bridge struct{ Env *Env }
+type Bridge struct {
+	Env *Env
+	// Interp: no generated bindings are linked in (the root module copy); the schema interpreter
+	// (interp.go) stands in for them
+	Interp bool
+}
 
 var bytesType = reflect.TypeOf([]byte(nil))
 
